@@ -103,7 +103,8 @@ def gen_antenna(rng, families=None, max_pulses=25, ground=None, len_jitter=(0.7,
         top = np.array([x + tilt * Lw, y, Lw])
         st = rng.choice([1, 2, 3])
         tmax = rng.choice([None, Lw / n * rng.uniform(1.05, 1.6)])
-        w = dict(nseg=n, r=float(min(rad, seg / 40)), segtype=st, tmax=tmax)
+        # the shortest segment stays inside the documented modelling rules (segments not below 1/200 wavelength)
+        w = dict(nseg=n, r=float(min(rad, seg / 40)), segtype=st, tmax=tmax, tmin=float(lam / 150))
         if rng.random() < 0.5:
             w.update(p0=[float(x), float(y), 0.0], p1=[float(v) for v in top])
         else:
